@@ -51,7 +51,9 @@ RULE_ADDED = (
               'ables. '
               ' '
               'Round 15: a quarter of the cells on a device to be left alone get a late answer '
-              'among their first four exchanges. ')
+              'among their first four exchanges. '
+              ' '
+              'Round 16: pubkeys exports into a directory holding a longer earlier export. ')
 RULE = RULE + " " + RULE_ADDED.strip()
 ASSUMPTIONS = [
     "simulated devices (pv/simdev) trusted; operator input is scripted, an exhausted script "
@@ -246,6 +248,18 @@ def run_cell(acc, cell, tmpdir, seed):
     for f in (out, pkout, os.path.join(tmpdir, "keys.json")):
         if os.path.exists(f):
             os.unlink(f)
+    if cmd == "pubkeys" and rng.random() < 0.5:
+        # the export directory is re-used: it holds an earlier export, of another device
+        # and of more paths (longer files than the ones about to be written)
+        old_keys = {p_: g1.pub65(g1.new_key(rng)) for p_ in
+                    list(ALL_PATHS) + ["m/44'/1'/3'/0/0", "m/44'/1'/4'/0/0", "m/44'/1'/5'/0/0"]}
+        with open(pkout, "w") as f_:
+            f_.write("*" * 80 + "\nName \t\t\t Path \t\t\t\t Pubkey\n" + "".join(
+                "old%d \t\t\t %s \t\t %s\n" % (i_, p_, (bytes([2 + (k_[-1] & 1)]) + k_[1:33]).hex())
+                for i_, (p_, k_) in enumerate(old_keys.items())) + "*" * 80 + "\n")
+        with open(os.path.join(tmpdir, "keys.json"), "w") as f_:
+            json.dump({p_: k_.hex() for p_, k_ in old_keys.items()}, f_, indent=2)
+        acc.count("pubkey_exports_into_a_directory_holding_an_earlier_longer_export")
     getpass_answers = []
     opts = None
     stdin = ""
